@@ -55,4 +55,7 @@ void use_smallset(SS &s, SS &o, const ElemNR &e, ElemNR &&r, const ElemNR *f, co
   s.merge(o);
   auto n = s.extract(e);
   s.insert(std::move(n));
+  s.insert(s.begin(), std::move(r));
+  auto n2 = s.extract(s.begin());
+  s.insert(s.begin(), std::move(n2));
 }
